@@ -1,7 +1,7 @@
 (* C06 — property theorems only.  Each is closed by `exact` of a lemma of C06_Proofs*.v. *)
 From Coq Require Import List NArith Bool Arith.
 From Dae.gen Require Import C06_Extracted.
-From Dae Require Import C06_Spec C06_Model C06_Async C06_Session C06_Clock C06_Proofs.
+From Dae Require Import C06_Spec C06_Model C06_Async C06_Session C06_Clock C06_Key C06_Proofs.
 Import ListNotations.
 Open Scope N_scope.
 
@@ -260,6 +260,30 @@ Theorem C06_udp_session_never_withholds_refuted :
     dropped <> [] /\ fwd ++ pending st <> map ev_data h.
 Proof. exact C06_udp_session_never_withholds_refuted_proof. Qed.
 Print Assumptions C06_udp_session_never_withholds_refuted.
+
+(* ---------------------------------------------------------------- session key and fingerprint parsing *)
+(* control/packet_sniffer_pool.go, for EVERY byte string (truncated, mutated, random): the index-based
+   parsers with the guards extracted from the source never index outside the datagram, and what they
+   return is exactly the structural reading of the long header - fingerprint (version, DCID, SCID)
+   and key DCID when present, nothing otherwise. *)
+Theorem C06_key_fingerprint_exact :
+  forall data : bytes,
+    fingerprint data = Ok (spec_fingerprint data) /\ key_dcid data = Ok (spec_key_dcid data).
+Proof. exact C06_key_fingerprint_exact_proof. Qed.
+Print Assumptions C06_key_fingerprint_exact.
+
+Theorem C06_key_fingerprint_no_oob :
+  forall data : bytes, fingerprint data <> Err Oob /\ key_dcid data <> Err Oob.
+Proof. exact C06_key_fingerprint_no_oob_proof. Qed.
+Print Assumptions C06_key_fingerprint_no_oob.
+
+(* non-vacuity: a header with an 8-byte DCID and a 2-byte SCID, whole and cut right after the DCID *)
+Example C06_key_fingerprint_nonvacuous :
+  let d := [195; 0; 0; 0; 1; 8; 1; 2; 3; 4; 5; 6; 7; 8; 2; 9; 9; 0; 0] in
+  fingerprint d = Ok (Some ([0; 0; 0; 1], [1; 2; 3; 4; 5; 6; 7; 8], [9; 9]))
+  /\ key_dcid d = Ok (Some [1; 2; 3; 4; 5; 6; 7; 8])
+  /\ fingerprint (firstn 14 d) = Ok None /\ key_dcid (firstn 14 d) = Ok (Some [1; 2; 3; 4; 5; 6; 7; 8]).
+Proof. exact C06_key_fingerprint_nonvacuous_proof. Qed.
 
 (* ---------------------------------------------------------------- non-vacuity *)
 Example C06_nonvacuous :
